@@ -17,6 +17,8 @@ struct Case {
   ext: String,
   pattern: String,
   src: String,
+  /// Some(kind): `pattern` is a context and the pattern proper is the first node of that kind in it
+  selector: Option<String>,
   extra: Value,
 }
 
@@ -40,7 +42,11 @@ fn run_case(c: &Case, scratch: &str, idx: usize) -> Vec<Value> {
   std::fs::write(format!("{dir}/{file}"), &c.src).unwrap();
   let lname = util::lang_name(c.lang);
   let mut out = vec![];
-  let Ok(Ok(base)) = catch_unwind(AssertUnwindSafe(|| Pattern::try_new(&c.pattern, c.lang))) else {
+  let built = catch_unwind(AssertUnwindSafe(|| match &c.selector {
+    None => Pattern::try_new(&c.pattern, c.lang),
+    Some(k) => Pattern::contextual(&c.pattern, k, c.lang),
+  }));
+  let Ok(Ok(base)) = built else {
     let _ = std::fs::remove_dir_all(&dir);
     return out;
   };
@@ -53,13 +59,25 @@ fn run_case(c: &Case, scratch: &str, idx: usize) -> Vec<Value> {
     let Ok(lib) = lib else { continue };
     let fixed = pat.fixed_string().to_string();
     let parg = format!("--pattern={}", c.pattern); // a pattern may start with `-`
-    let rf = run_sgv(&["run", &parg, "-l", &lname, "--strictness", lv, "--json=stream", &file], &dir, None, 20, &[]);
-    let rs = run_sgv(&["run", &parg, "-l", &lname, "--strictness", lv, "--json=stream", "--stdin"], &dir, Some(&c.src), 20, &[]);
-    let rule = json!({"id": "r", "language": lname, "rule": {"pattern": {"context": c.pattern, "strictness": lv}}}).to_string();
+    let mut a1 = vec!["run", &parg, "-l", &lname, "--strictness", lv, "--json=stream"];
+    if let Some(k) = &c.selector {
+      a1.push("--selector");
+      a1.push(k);
+    }
+    let mut a2 = a1.clone();
+    a1.push(&file);
+    a2.push("--stdin");
+    let rf = run_sgv(&a1, &dir, None, 20, &[]);
+    let rs = run_sgv(&a2, &dir, Some(&c.src), 20, &[]);
+    let rule = match &c.selector {
+      None => json!({"id": "r", "language": lname, "rule": {"pattern": {"context": c.pattern, "strictness": lv}}}),
+      Some(k) => json!({"id": "r", "language": lname, "rule": {"pattern": {"context": c.pattern, "selector": k, "strictness": lv}}}),
+    }
+    .to_string();
     let sf = run_sgv(&["scan", "--inline-rules", &rule, "--json=stream", &file], &dir, None, 20, &[]);
     let ss = run_sgv(&["scan", "--inline-rules", &rule, "--json=stream", "--stdin"], &dir, Some(&c.src), 20, &[]);
     let mut rec = json!({
-      "id": c.id, "lang": lname, "pattern": c.pattern, "src": c.src, "s": lv,
+      "id": c.id, "lang": lname, "pattern": c.pattern, "selector": c.selector.clone().unwrap_or_default(), "src": c.src, "s": lv,
       "lib": ranges_json(&lib),
       "run_file": ranges_json(&byte_ranges(&json_lines(&rf.stdout))),
       "run_stdin": ranges_json(&byte_ranges(&json_lines(&rs.stdout))),
@@ -96,7 +114,7 @@ pub fn drive(pf_vectors: Option<&str>, near_vectors: Option<&str>, corpus: &str,
       };
       let pattern = format!("class A {{ {}{}() {{}} }}", mods(&v["mp"]), v["pname"].as_str().unwrap());
       let src = format!("class A {{ {}{}() {{}} }}\n", mods(&v["ms"]), v["sname"].as_str().unwrap());
-      cases.push(Case { id: format!("pf{i}"), lang: js, ext: "js".into(), pattern, src, extra: json!({"mode": "prefilter", "hide": v["hide"]}) });
+      cases.push(Case { id: format!("pf{i}"), lang: js, ext: "js".into(), pattern, src, selector: None, extra: json!({"mode": "prefilter", "hide": v["hide"]}) });
     }
   }
   if let Some(v) = near_vectors {
@@ -107,7 +125,7 @@ pub fn drive(pf_vectors: Option<&str>, near_vectors: Option<&str>, corpus: &str,
       let (cs, gs) = (strs(&v["cs"]), strs(&v["gs"]));
       // two statements so that the file holds several candidate nodes
       let src = format!("{};\nfoo({});\n", render_list(&cs), render_list(&cs));
-      cases.push(Case { id: format!("near{i}"), lang: js, ext: "js".into(), pattern: render_list(&gs), src, extra: json!({"mode": "near"}) });
+      cases.push(Case { id: format!("near{i}"), lang: js, ext: "js".into(), pattern: render_list(&gs), src, selector: None, extra: json!({"mode": "near"}) });
     }
   }
   let per_file = if thorough { 6 } else { 1 };
@@ -137,7 +155,17 @@ pub fn drive(pf_vectors: Option<&str>, near_vectors: Option<&str>, corpus: &str,
       } else {
         text_site
       };
-      cases.push(Case { id: format!("{path}#{k}"), lang: l, ext: ext_of(l).into(), pattern, src: text.clone(), extra: json!({"mode": "corpus"}) });
+      cases.push(Case { id: format!("{path}#{k}"), lang: l, ext: ext_of(l).into(), pattern: pattern.clone(), src: text.clone(), selector: None, extra: json!({"mode": "corpus"}) });
+      // the same pattern left inside the text of its parent, selected by kind (contextual pattern)
+      if let Some(par) = site.parent() {
+        let pt = par.text().to_string();
+        if pt.len() < 200 && !pt.contains('$') && !pt.contains('\n') && par.range() != site.range() && !mrec::has_error_or_missing(&par.get_ts_node()) {
+          let (s0, e0) = (site.range().start - par.range().start, site.range().end - par.range().start);
+          let context = format!("{}{}{}", &pt[..s0], pattern, &pt[e0..]);
+          cases.push(Case { id: format!("{path}#{k}ctx"), lang: l, ext: ext_of(l).into(), pattern: context, src: text.clone(),
+                            selector: Some(site.kind().to_string()), extra: json!({"mode": "corpus"}) });
+        }
+      }
     }
   }
   let scratch = format!("/var/tmp/agv-c01-{}", std::process::id());
